@@ -34,6 +34,8 @@ def matcher_helpers(mod):
     from ..core import enclosing_function
     cands = [n for n in ast.walk(call) if isinstance(n, ast.FunctionDef) and n is not call and enclosing_function(n) is call]
     cands += [n for n in cls.body if isinstance(n, ast.FunctionDef) and not (n.name.startswith('__') and n.name.endswith('__'))]
+    for meth in [n for n in cls.body if isinstance(n, ast.FunctionDef) and n is not call]:
+        cands += [n for n in ast.walk(meth) if isinstance(n, ast.FunctionDef) and n is not meth]
     cands += [n for n in mod.tree.body if isinstance(n, ast.FunctionDef)]
     rec = []
     for fn in cands:
@@ -50,9 +52,11 @@ def matcher_helpers(mod):
             rec.append(fn)
     scan = [n for n in rec if len(own_params(n)) == 3]
     deep = [n for n in rec if len(own_params(n)) == 4]
-    if len(scan) != 1 or len(deep) != 1:
-        raise AnalysisError('%s: cannot identify the structural scan (recursive, 3 parameters) and the leaf numbering (recursive, 4 parameters) of the matcher' % UNI)
-    return scan[0], deep[0]
+    leaves = [n for n in rec if len(own_params(n)) == 1 and any(isinstance(x, (ast.Yield, ast.YieldFrom)) for x in ast.walk(n))]
+    if len(scan) != 1 or len(deep) > 1 or (not deep and len(leaves) != 1):
+        raise AnalysisError('%s: cannot identify the structural scan (recursive, 3 parameters) and the leaf numbering '
+                            '(recursive with 4 parameters, or a recursive generator of the leaves) of the matcher' % UNI)
+    return scan[0], (deep[0] if deep else leaves[0])
 
 
 def flat(t, op):
@@ -169,13 +173,54 @@ def r_scan(repo, rep, R='R6.3'):
 
 
 def r_scan_deep(repo, rep, R='R6.3'):
-    """leaf features of a sub-category bound to a variable are numbered consecutively, left to right"""
+    """leaf features of a sub-category bound to a variable are numbered consecutively from 0, left to right.  Three ways
+    of writing it are recognised: an index threaded through the recursion, a shared counter drawn from at every leaf, and
+    enumerate() over a left-to-right generator of the leaves."""
     mod = repo.module(UNI)
     scan, sd = matcher_helpers(mod)
     ps = own_params(sd)
-    s, v, idx, res = ps
     w = '%s:%s %s' % (UNI, sd.lineno, qualname_of(sd))
     is_self = self_call_pred(sd)
+    s2, t2, res2 = own_params(scan)
+    wscan = '%s:%s %s' % (UNI, scan.lineno, qualname_of(scan))
+    is_deep = self_call_pred(sd)
+    if len(ps) == 1:
+        # (c) generator of the leaves + enumerate
+        s = ps[0]
+        fun_ok = leaf_ok = None
+        detail = []
+        for st, o in SymExec(sd, inline=False).run():
+            conds = [(c, pol) for c, pol, _ in st.conds]
+            ys = [e[1] for e in st.events if e[0] == 'expr' and e[1][0] in ('yield', 'yieldfrom')]
+            is_fun = logic.implied(conds, logic.formula(A(N(s), 'is_functor'))) or logic.implied(conds, logic.neg(logic.formula(A(N(s), 'is_atomic'))))
+            if is_fun:
+                ok = len(ys) == 2 and all(y[0] == 'yieldfrom' and y[1][0] == 'call' and is_self(y[1][1]) for y in ys) and \
+                    ys[0][1][2] == (A(N(s), 'left'),) and ys[1][1][2] == (A(N(s), 'right'),)
+                fun_ok = ok if fun_ok is None else (fun_ok and ok)
+                detail.append('functor: %s' % [show(y)[:50] for y in ys])
+            else:
+                ok = ys == [('yield', N(s))]
+                leaf_ok = ok if leaf_ok is None else (leaf_ok and ok)
+                detail.append('leaf: %s' % [show(y)[:50] for y in ys])
+        # use: for i, leaf in enumerate(leaves(t)): results[f'{var}{i}'] = leaf.feature
+        use_ok = False
+        for st, o in SymExec(scan, no_inline=(sd.name,)).run():
+            for e in st.events:
+                if e[0] == 'loop-enter' and e[1][0] == 'call' and e[1][1] == N('enumerate'):
+                    en = e[1]
+                    start = en[2][1] if len(en[2]) > 1 else dict(en[3]).get('start', C(0))
+                    src_ok = en[2] and en[2][0][0] == 'call' and is_deep(en[2][0][1]) and en[2][0][2] == (N(t2),) and start == C(0)
+                    el = ('elem', en, e[2].lineno)
+                    sets = [(x[2], x[3]) for x in st.events if x[0] == 'setitem' and x[1] == N(res2)]
+                    want_key = [A(N(s2), 'base'), ('unpack', el, 0)]
+                    okk = any(str_parts(k) == want_key and v == A(('unpack', el, 1), 'feature') for k, v in sets)
+                    use_ok = use_ok or (src_ok and okk)
+        rep.check(bool(leaf_ok) and bool(fun_ok) and use_ok, R, w, 'scan_deep:leaf-numbering',
+                  'the leaves are produced left to right and numbered by enumerate from 0 (%s)' % '; '.join(detail),
+                  'the leaves under a variable are not numbered consecutively left to right from 0, so features at corresponding positions are not the ones compared: %s; use in scan ok: %s' % ('; '.join(detail), use_ok))
+        rep.check(use_ok, R, wscan, 'scan_deep:start', 'numbering starts at 0 for each variable occurrence', 'the leaf numbering does not start at 0 for each variable occurrence')
+        return
+    s, v, idx, res = ps
 
     def on_call(st, t, node):
         if is_self(t[1]) and len(t[2]) == 4:
@@ -184,36 +229,45 @@ def r_scan_deep(repo, rep, R='R6.3'):
             return ('sym', 'next-free-index', k)
         return None
     leaf_ok = fun_ok = None
+    counter_mode = False
     detail = []
     for st, o in SymExec(sd, on_call=on_call, init_env={sd.name: ('func', sd.name, id(sd))}).run():
         conds = [(c, pol) for c, pol, _ in st.conds]
         recs = st.data.get('rec', [])
         is_fun = logic.implied(conds, logic.formula(A(N(s), 'is_functor'))) or logic.implied(conds, logic.neg(logic.formula(A(N(s), 'is_atomic'))))
+        nxt = ('call', N('next'), (N(idx),), ())
         if is_fun:
-            ok = len(recs) == 2 and recs[0][0] == A(N(s), 'left') and recs[0][2] == N(idx) and recs[1][0] == A(N(s), 'right') and \
+            threaded = len(recs) == 2 and recs[0][0] == A(N(s), 'left') and recs[0][2] == N(idx) and recs[1][0] == A(N(s), 'right') and \
                 recs[1][2] == ('sym', 'next-free-index', 0) and st.ret == ('sym', 'next-free-index', 1) and \
                 all(r[1] == N(v) and r[3] == N(res) for r in recs)
+            shared = len(recs) == 2 and recs[0][0] == A(N(s), 'left') and recs[1][0] == A(N(s), 'right') and \
+                all(r[1] == N(v) and r[2] == N(idx) and r[3] == N(res) for r in recs)
+            ok = threaded or shared
             fun_ok = ok if fun_ok is None else (fun_ok and ok)
             detail.append('functor: %s -> %s' % ([show(r[2]) for r in recs], show(st.ret) if st.ret else None))
         else:
             sets = [(e[2], e[3]) for e in st.events if e[0] == 'setitem' and e[1] == N(res)]
-            ok = len(sets) == 1 and str_parts(sets[0][0]) == [N(v), N(idx)] and sets[0][1] == A(N(s), 'feature') and \
+            threaded = len(sets) == 1 and str_parts(sets[0][0]) == [N(v), N(idx)] and sets[0][1] == A(N(s), 'feature') and \
                 st.ret in (('binop', '+', N(idx), C(1)), ('binop', '+', C(1), N(idx))) and not recs
+            draws = [e for e in st.events if e[0] == 'call' and e[1] == nxt]
+            shared = len(sets) == 1 and str_parts(sets[0][0]) == [N(v), nxt] and sets[0][1] == A(N(s), 'feature') and len(draws) == 1 and not recs
+            counter_mode = counter_mode or shared
+            ok = threaded or shared
             leaf_ok = ok if leaf_ok is None else (leaf_ok and ok)
             detail.append('leaf: %s -> %s' % ([(show(a), show(b)) for a, b in sets], show(st.ret) if st.ret else None))
     rep.check(bool(leaf_ok) and bool(fun_ok), R, w, 'scan_deep:leaf-numbering',
               'every leaf gets the next free index and the right side continues where the left side stopped (%s)' % '; '.join(detail),
               'the leaves under a variable are not numbered consecutively left to right, so features at corresponding positions are not the ones compared: %s' % '; '.join(detail))
     # started at 0 with the input, the variable name and the feature table of the side being scanned
-    s2, t2, res2 = own_params(scan)
-    is_deep = self_call_pred(sd)
     starts = []
     for st, o in SymExec(scan, no_inline=(sd.name,)).run():
         for c_ in all_calls(st):
             if is_deep(c_[1]) and c_[2] not in starts:
                 starts.append(c_[2])
-    ok = starts == [(N(t2), A(N(s2), 'base'), C(0), N(res2))]
-    rep.check(ok, R, '%s:%s %s' % (UNI, scan.lineno, qualname_of(scan)), 'scan_deep:start', 'numbering starts at 0 for each variable occurrence',
+    fresh0 = (C(0),) if not counter_mode else (('call', N('count'), (), ()), ('call', A(N('itertools'), 'count'), (), ()),
+                                               ('call', N('count'), (C(0),), ()), ('call', A(N('itertools'), 'count'), (C(0),), ()))
+    ok = len(starts) == 1 and len(starts[0]) == 4 and starts[0][0] == N(t2) and starts[0][1] == A(N(s2), 'base') and starts[0][2] in fresh0 and starts[0][3] == N(res2)
+    rep.check(ok, R, wscan, 'scan_deep:start', 'numbering starts at 0 for each variable occurrence',
               'the leaf numbering is started with %s' % [[show(a) for a in st_] for st_ in starts])
 
 
